@@ -12,7 +12,9 @@ EXHAUSTIVE = True
 RULE = ("Random G-core programs (definitions sent in a first request, the top-level statements in a second). Fault "
         "plan: EVERY evaluation step k = 1..T of the program as a single interrupt point (exhaustive per program; T is "
         "found by raising k until no interrupt fires), plus random multi-point plans (2..5 points incl. adjacent steps "
-        "and points inside resumed runs). Injection: the guarded hook stores `true` into the session's own "
+        "and points inside resumed runs) and structured plans whose last point is the final step of the already-resumed "
+        "evaluation (step T + n after n earlier interrupts); the final top-level expression is a literal, a "
+        "parenthesised expression, an operator or a call. Injection: the guarded hook stores `true` into the session's own "
         "`interrupted` flag when the global step counter reaches a listed value; the real check-and-restore code then "
         "runs unmodified. After each `interrupted` reply the harness sends `:resume`. Oracle: concatenated printed "
         "output and the final value / error (message and position) equal those of the uninterrupted run, and exactly "
@@ -57,7 +59,9 @@ def gen(r):
         pr = G.Printer()
         pr.stmt(s)
         body.append(pr.text())
-    body.append("4242")
+    # the last top-level expression gives the final value; its shape decides what the evaluator still has to do when
+    # the last step is reached
+    body.append(r.choice(["4242", "(4242)", "4000 + 242", "(4000 + 242)", "[4242].len() + 4241", "((4242))"]))
     plans = []
     for _ in range(3):
         n = r.int(2, 5)
@@ -66,7 +70,7 @@ def gen(r):
             pts = sorted(set(pts + [pts[0] + 1]))
         plans.append(pts)
     return {"defs": "\n\n".join(defs) if defs else "let unused_def_marker = 0", "main": "\n".join(body),
-            "plans": plans, "features": sorted(G.features(prog))}
+            "plans": plans, "tail_picks": [r.int(1, 1000) for _ in range(3)], "features": sorted(G.features(prog))}
 
 
 def run_plan(ctx, case, points):
@@ -173,6 +177,28 @@ def check(case, ctx) -> Res:
         T = limit
         cls.append("steps-capped")
     cls.append("T<50" if T < 50 else ("T<150" if T < 150 else "T>=150"))
+    # plans whose LAST point is the final step of the already-resumed evaluation: every interrupt makes the
+    # evaluator redo one step, so after n earlier interrupts the final step is step T + n
+    structured = []
+    if T >= 2 and "steps-capped" not in cls:
+        picks = case.get("tail_picks") or [1, 2, 3]
+        for q in picks[:3]:
+            p1 = 1 + (q * 7919) % T
+            structured.append(sorted({p1, T + 1}))
+        structured.append([T, T + 1])
+        if T >= 4:
+            structured.append(sorted({1 + (picks[0] * 31) % T, 1 + (picks[-1] * 17) % T}) + [T + 2])
+    for plan in structured:
+        if len(plan) < 2:
+            continue
+        sr = run_plan(ctx, case, plan)
+        if sr.run.timed_out:
+            return Res(ok=True, inconclusive=True, detail=f"timeout with interrupts at {plan}\n{prog_txt}")
+        evals += 1
+        bad, n_int, before, after = compare(plan, sr, None)
+        if bad is not None:
+            return bad
+        cls.append("final-step-plan")
     for plan in case["plans"]:
         pts = [p for p in plan if p <= max(T, 1)]
         if len(pts) < 2:
